@@ -64,7 +64,7 @@ long rt_stat_steps, rt_stat_cas_fail;
 static long bias_loc[8], bias_val[8]; static int nbias;
 void rt_bias(long loc, long bias) { if (nbias < 8) { bias_loc[nbias] = loc; bias_val[nbias++] = bias; } }
 static inline long debias(long loc, long kind, long val) {
-  if (kind / 10 == K_EV || kind / 10 == K_RET) return val;
+  if (kind / 10 >= K_RET || kind / 10 == K_RELAX || kind / 10 == K_FENCE) return val;   /* only memory accesses */
   for (int i = 0; i < nbias; i++) if (bias_loc[i] == loc) return val - bias_val[i];
   return val;
 }
